@@ -43,19 +43,23 @@ CONSTANTS
   Ops,          \* subset of {"rwb-write","rwb-force","edit","insert","delete","rename"}
   InsertKinds,  \* kinds of line InsertLine may add: subset of {"com","str"}
   UndoModes,    \* subset of {"session","reopen"}
+  HeadClasses,  \* character classes a comment line *before* the coding line may carry (layout "p2p")
+  AllowConvert, \* BOOLEAN: the file's newline convention may be converted outside the tool
+                \* between the tool's first read and the edit
   RestoreNL,    \* TRUE: Write restores the newline convention (the property needs it)
   KeepBom       \* TRUE: Write puts the BOM back
 
 VARIABLES file,    \* abstract file (see TypeOK)
-          phase,   \* "build" | "loaded" | "done" | "undone"
+          phase,   \* "build" | "loaded" | "converted" | "done" | "undone"
           act,     \* the action taken: [op, k, kind, p, name]
           file0,   \* abstract file before the action
           rd,      \* what the tool read before the action: [text, nl, bom]
+          pre,     \* bytes the tool saw at its first read, if the file was converted after that
           disk0,   \* bytes before the action
           disk1,   \* bytes after the action
           disk     \* bytes now
 
-vars == <<file, phase, act, file0, rd, disk0, disk1, disk>>
+vars == <<file, phase, act, file0, rd, pre, disk0, disk1, disk>>
 
 ----------------------------------------------------------------------------
 (* Characters are code points.  Payload classes: *)
@@ -103,11 +107,13 @@ FormPre(f) ==
     [] f = "F6" -> <<32,32,35,32,99,111,100,105,110,103,58,32>>                   \* '  # coding: '
     [] f = "F7" -> <<35,32,99,111,100,105,110,103,58,32>>                         \* '# coding: '
     [] f = "F8" -> <<35,32,45,42,45,32,101,110,99,111,100,105,110,103,58,32>>     \* '# -*- encoding: '
+    [] f = "F9" -> <<12,35,32,45,42,45,32,99,111,100,105,110,103,58,32>>          \* '<FF># -*- coding: ' (PEP 263 allows [ \t\f]* before #)
 FormSuf(f) ==
   CASE f = "F1" -> <<32,45,42,45>>                     \* ' -*-'
     [] f = "F2" -> <<32,58>>                           \* ' :'
     [] f = "F7" -> <<32,40,108,101,103,97,99,121,41>>  \* ' (legacy)'
     [] f = "F8" -> <<32,45,42,45>>
+    [] f = "F9" -> <<32,45,42,45>>
     [] OTHER -> <<>>
 
 SpellCp(s) ==
@@ -179,11 +185,12 @@ HeadKinds(layout) ==
     [] layout = "p1"   -> <<"cookie">>
     [] layout = "p2s"  -> <<"shebang", "cookie">>
     [] layout = "p2b"  -> <<"blank", "cookie">>
+    [] layout = "p2p"  -> <<"paycomment", "cookie">>         \* after a comment that carries characters
     [] layout = "p2x"  -> <<"code", "cookie">>               \* after code: not a declaration
     [] layout = "p3"   -> <<"shebang", "comment", "cookie">> \* third line: not a declaration
 
 (* PEP 263: first or second line, the first only if comment-only or blank *)
-Effective(layout) == layout \in {"p1", "p2s", "p2b"}
+Effective(layout) == layout \in {"p1", "p2s", "p2b", "p2p"}
 
 DeclEnc(f) == IF Effective(f.layout) THEN Canon(f.cookie[2]) ELSE "utf-8"
 
@@ -193,8 +200,9 @@ DeclEnc(f) == IF Effective(f.layout) THEN Canon(f.cookie[2]) ELSE "utf-8"
 BomOK(f) == f.bom => (~Effective(f.layout) \/ f.layout = "none"
                       \/ f.cookie[2] \in {"utf-8", "UTF-8", "utf-8-sig"})
 
-HeadLine(kind, cookie) ==
+HeadLine(kind, cookie, hp) ==
   CASE kind = "shebang" -> S_shebang
+    [] kind = "paycomment" -> T_com_pre \o [j \in 1..Len(hp) |-> ClassCp[hp[j]]]
     [] kind = "blank"   -> <<>>
     [] kind = "code"    -> S_code
     [] kind = "comment" -> S_comment
@@ -217,7 +225,7 @@ NHead(f) == Len(HeadKinds(f.layout))
 (* all lines of the file as code point sequences *)
 Lines(f) ==
   LET hk == HeadKinds(f.layout) IN
-  [j \in 1..Len(hk) |-> HeadLine(hk[j], f.cookie)] \o
+  [j \in 1..Len(hk) |-> HeadLine(hk[j], f.cookie, f.hp)] \o
   [j \in 1..Len(f.body) |-> BodyLine(f.body[j], f.name)]
 
 RECURSIVE JoinWith(_, _)
@@ -252,6 +260,8 @@ Prefixable(f) ==
        /\ CanEncAll(PayCp(f.body[j].p), DeclEnc(f))
        /\ f.body[j].k \in {"use", "two"} => \E i \in 1..(j - 1) : f.body[i].k = "def"
   /\ CanEncAll(NameCp(f.name), DeclEnc(f))
+  /\ CanEncAll(PayCp(f.hp), DeclEnc(f))
+  /\ (f.hp # <<>>) => f.layout = "p2p"
 
 WellFormed(f) ==
   /\ Prefixable(f)
@@ -324,15 +334,18 @@ NoRead == [text |-> <<>>, nl |-> "LF", bom |-> FALSE]
 
 Init ==
   /\ \E layout \in Layouts, nl \in NLs, final \in Finals, bom \in Boms :
-       \E cookie \in (IF layout = "none" THEN {NoCookie} ELSE Cookies) :
-         file = [bom |-> bom, layout |-> layout, cookie |-> cookie, body |-> <<>>,
+       \E cookie \in (IF layout = "none" THEN {NoCookie} ELSE Cookies),
+          hp \in (IF layout = "p2p" THEN {<<>>} \cup {<<c>> : c \in HeadClasses} ELSE {<<>>}) :
+         file = [bom |-> bom, layout |-> layout, cookie |-> cookie, hp |-> hp, body |-> <<>>,
                  name |-> "old", nl |-> nl, final |-> final]
   /\ file.bom => DeclEnc(file) = "utf-8"
   /\ BomOK(file)
+  /\ CanEncAll(PayCp(file.hp), DeclEnc(file))
   /\ phase = "build"
   /\ act = NoAct
   /\ file0 = file
   /\ rd = NoRead
+  /\ pre = <<>>
   /\ disk0 = <<>> /\ disk1 = <<>> /\ disk = <<>>
 
 (* build the file line by line; every prefix with a consistent newline field is a file *)
@@ -343,7 +356,7 @@ AddLine(kind, p) ==
        /\ Prefixable(f)
        /\ PayChars(f) <= MaxChars
        /\ file' = f
-  /\ UNCHANGED <<phase, act, file0, rd, disk0, disk1, disk>>
+  /\ UNCHANGED <<phase, act, file0, rd, pre, disk0, disk1, disk>>
 
 (* the file is put on disk and the tool reads it *)
 Load ==
@@ -354,9 +367,27 @@ Load ==
   /\ disk' = disk0'
   /\ rd' = Read(disk0', DeclEnc(file))
   /\ file0' = file
-  /\ UNCHANGED <<file, act, disk1>>
+  /\ UNCHANGED <<file, act, pre, disk1>>
 
-Ready == phase = "loaded"
+(* Something outside the tool (an editor, dos2unix, git autocrlf) converts the   *)
+(* file to another newline convention after the tool has read it once and     *)
+(* before it edits it through the same long-lived handle.  A correct tool      *)
+(* looks at the file again when it edits: the convention to preserve is the    *)
+(* one the file has *now*.                                                     *)
+Convert(n2) ==
+  /\ phase = "loaded" /\ AllowConvert
+  /\ n2 \in NLs /\ n2 # file.nl
+  /\ NTerms(file) > 0
+  /\ LET f1 == [file EXCEPT !.nl = n2] IN
+       /\ file' = f1 /\ file0' = f1
+       /\ pre' = disk0
+       /\ disk0' = Bytes(f1)
+       /\ disk' = disk0'
+       /\ rd' = Read(disk0', DeclEnc(f1))
+  /\ phase' = "converted"
+  /\ UNCHANGED <<act, disk1>>
+
+Ready == phase \in {"loaded", "converted"}
 Enc == DeclEnc(file)
 
 Take(a, f1, d1) ==
@@ -365,7 +396,7 @@ Take(a, f1, d1) ==
   /\ file' = f1
   /\ disk1' = d1
   /\ disk' = d1
-  /\ UNCHANGED <<file0, disk0, rd>>
+  /\ UNCHANGED <<file0, disk0, rd, pre>>
 
 (* File.write(File.read()) or a forced ChangeContents with the text just read *)
 ReadWriteBack(v) ==
@@ -439,11 +470,12 @@ Undo(m) ==
   /\ phase' = "undone"
   /\ file' = file0
   /\ act' = [act EXCEPT !.undo = m]
-  /\ UNCHANGED <<file0, rd, disk0, disk1>>
+  /\ UNCHANGED <<file0, rd, pre, disk0, disk1>>
 
 Next ==
   \/ \E kind \in BodyKinds, p \in Payloads : AddLine(kind, p)
   \/ Load
+  \/ \E n2 \in {"LF", "CRLF", "CR"} : Convert(n2)
   \/ \E v \in {"rwb-write", "rwb-force"} : ReadWriteBack(v)
   \/ \E i \in 1..(MaxBody + 1), p \in EditPayloads : EditLine(i, p)
   \/ \E i \in 1..(MaxBody + 1), kind \in InsertKinds, p \in EditPayloads : InsertLine(i, kind, p)
@@ -457,21 +489,22 @@ Spec == Init /\ [][Next]_vars
 (* Invariants *)
 FileOK(f) ==
   /\ f.bom \in BOOLEAN /\ f.final \in BOOLEAN /\ f.nl \in {"LF", "CRLF", "CR"}
-  /\ f.layout \in {"none", "p1", "p2s", "p2b", "p2x", "p3"}
+  /\ f.layout \in {"none", "p1", "p2s", "p2b", "p2p", "p2x", "p3"}
+  /\ f.hp \in Seq(DOMAIN ClassCp)
   /\ f.name \in {"old", "long", "short", "lat", "cjk"}
   /\ \A j \in 1..Len(f.body) :
        f.body[j].k \in {"def", "use", "str", "com", "two"} /\ f.body[j].p \in Seq(DOMAIN ClassCp)
 
 TypeOK ==
   /\ FileOK(file) /\ FileOK(file0)
-  /\ phase \in {"build", "loaded", "done", "undone"}
+  /\ phase \in {"build", "loaded", "converted", "done", "undone"}
   /\ phase = "done" => \A j \in 1..Len(disk) : disk[j] \in 0..255
 
 (* the abstract meaning of every action and the mechanism on bytes agree *)
 Glue == phase # "build" => disk = Bytes(file) /\ WellFormed(file)
 
 (* what the tool read is the file's text, convention and BOM *)
-ReadOK == phase = "loaded" =>
+ReadOK == phase \in {"loaded", "converted"} =>
             /\ rd.text = Text(file) /\ rd.bom = file.bom
             /\ NTerms(file) > 0 => rd.nl = file.nl
 
@@ -531,6 +564,13 @@ ReadBack ==
     /\ r.bom = file.bom
 
 UndoRestores == phase = "undone" => disk = disk0
+
+(* an external conversion changes line terminators only *)
+ConvertOnlyNewlines ==
+  pre # <<>> =>
+    LET A == BL(pre) B == BL(disk0) IN
+    /\ Len(A) = Len(B)
+    /\ \A j \in 1..Len(A) : A[j].l = B[j].l /\ (A[j].t = "EOF") = (B[j].t = "EOF")
 
 (* the encoding a file declares does not change under any action *)
 EncStable == DeclEnc(file) = DeclEnc(file0)
